@@ -304,6 +304,73 @@ def check(prop, tier):
             traces_validated_against_impl=nobs)
     res.counters["observer_placements"] = nobs
 
+    # ------------------------------------------------------------ (d)
+    # crowds: the observed object takes i actions, then K further objects of
+    # the same configuration are built and take one action each, then the
+    # observed one continues; the first and the last crowd member are run to
+    # the end as well.  (A bounded cache of live per-object state shows only
+    # when enough objects are alive at once.)
+    KS = (1, 2, 5, 17, 64, 127, 128, 129, 200, 300) if tier == "quick" else \
+        (1, 2, 3, 5, 9, 17, 33, 64, 65, 127, 128, 129, 200, 256, 257, 300,
+         512, 513, 1024, 1025)
+    crowd_cfgs = list(range(ns)) + [i for i, c in enumerate(full)
+                                    if c.cls in ("SingleMemory",
+                                                 "SingleDiskMove",
+                                                 "NoneSchedule")]
+    ctasks = [(y, pos, K) for y in crowd_cfgs for pos in ("early", "middle")
+              for K in KS]
+
+    def worker_d(idxs):
+        bad = []
+        n = 0
+        for ti in idxs:
+            y, pos, K = ctasks[ti]
+            cfg, L, b = full[y], lens[y], base[y]
+            clear_all_memos()
+            obs_t = I.Thread(cfg, L)
+            obs_t.step()
+            for _ in range(1 if pos == "early" else max(1, L // 2)):
+                if obs_t.enabled():
+                    obs_t.step()
+            crowd = []
+            for _ in range(K):
+                t = I.Thread(cfg, L)
+                t.step()
+                if t.enabled():
+                    t.step()
+                crowd.append(t)
+            while obs_t.enabled():
+                obs_t.step()
+            for t in (crowd[0], crowd[-1]):
+                while t.enabled():
+                    t.step()
+            n += 1
+            for who, t in (("observed", obs_t), ("first crowd member", crowd[0]),
+                           ("last crowd member", crowd[-1])):
+                if t.stream != b["stream"] or t.error != b["error"]:
+                    k = next((i for i, (x, z) in
+                              enumerate(zip(t.stream, b["stream"])) if x != z),
+                             min(len(t.stream), len(b["stream"])))
+                    bad.append((y, pos, K, who, k, t.stream[k:k + 1], t.error))
+                    break
+        return n, bad
+    ncrowd = 0
+    for n, bad in common.pmap(worker_d, len(ctasks)):
+        ncrowd += n
+        for y, pos, K, who, k, got, err in sorted(bad, key=lambda x: x[2]):
+            rp = common.write_replay(prop, "crowd", {
+                "property": prop, "kind": "c15_crowd", "observed": y,
+                "position": pos, "K": K})
+            res.violation({"code": "crowd_dependent", "cls": full[y].cls},
+                          f"{full[y]!r}: with {K} other objects of the same "
+                          f"configuration started after its {pos} action(s), "
+                          f"the {who} emits {got} (error {err}) at action {k} "
+                          "instead of its baseline stream", rp)
+    res.add(evaluations=ncrowd, states=ncrowd, transitions=ncrowd,
+            traces_validated_against_impl=3 * ncrowd)
+    res.counters["crowd_histories"] = ncrowd
+    res.bounds["crowd_sizes"] = list(KS)
+
     res.cov["distinct_nontrivial"] = share + nseq
     res.cov["rule"] = ("(a) all histories of length 1 (full alphabet x 3 modes) "
                        "and length 2 (sub-alphabet) before each observed "
@@ -342,6 +409,31 @@ def replay(prop, payload):
                              payload["observed"])])[0]
         print(m)
         bad = m is not None
+    elif k == "c15_crowd":
+        y, pos, K = payload["observed"], payload["position"], payload["K"]
+        cfg = full[y]
+        b = I.baselines([cfg])[0]
+        L = len(b["stream"])
+        obs_t = I.Thread(cfg, L)
+        obs_t.step()
+        for _ in range(1 if pos == "early" else max(1, L // 2)):
+            if obs_t.enabled():
+                obs_t.step()
+        crowd = []
+        for _ in range(K):
+            t = I.Thread(cfg, L)
+            t.step()
+            if t.enabled():
+                t.step()
+            crowd.append(t)
+        while obs_t.enabled():
+            obs_t.step()
+        bad = obs_t.stream != b["stream"] or obs_t.error != b["error"]
+        for t in (crowd[0], crowd[-1]):
+            while t.enabled():
+                t.step()
+            bad = bad or t.stream != b["stream"]
+        print("crowd", cfg, pos, K, "differs" if bad else "equal")
     else:
         print("re-run ./check C15 to re-evaluate observer placements")
         bad = False
